@@ -37,7 +37,7 @@ type c06Fault struct {
 }
 
 var c06Faults = []c06Fault{
-	{"undefined", "zz"}, {"undefined", "zz = 1"}, {"undefined", "zz + 1"},
+	{"undefined", "zz"}, {"undefined", "zz = 1"}, {"undefined", "zz + 1"}, {"undefined", "zz = \"PROMPT\""}, {"undefined", "zq = [1, 2]"}, {"undefined", "zq = f1"},
 	{"type", "1 - nil"}, {"type", "-\"x\""}, {"type", "~0.5"}, {"type", "nil < 1"}, {"type", bn.KwTrue + " + 1"}, {"type", "[1] * 2"},
 	{"zero", "1 / 0"}, {"zero", "5 % 0"},
 	{"index", "arr[5]"}, {"index", "arr[0 - 1]"}, {"index", "arr[0.5]"}, {"index", "arr[5] = 1"}, {"index", "nil[0]"}, {"index", "arr[nil]"}, {"index", "d[0] = 1"},
@@ -80,6 +80,10 @@ var c06Positions = []struct{ name, text string }{
 	{"argument", "দেখাও f1(%s);\n"},
 	{"argument-second", "দেখাও pr(\"tagged\", %s);\n"},
 	{"argument-before-input", "দেখাও [%s, ইনপুট(\"PROMPT\")];\n"},
+	{"input-prompt-argument", "ধরি got = ইনপুট(%s);\nদেখাও got;\n"},
+	{"builtin-argument", "দেখাও লেন(%s);\n"},
+	{"builtin-second-argument", "দেখাও এড(arr, %s);\n"},
+	{"called-value-argument", "দেখাও (%s)(\"PROMPT\");\n"},
 	{"array-element", "x = [1, %s, pr(\"later-element\", 3)];\n"},
 	{"object-value", "x = {k: %s};\n"},
 	{"operand-left", "দেখাও (%s) + pr(\"right-operand\", 1);\n"},
